@@ -33,7 +33,8 @@ ASSUMPTIONS = ['canonical URL components (hostname, path, query, normalised user
                '(C10 proves 0x21..0x7e; monitored here on every generated URL: kind url-char-class)',
                'field names are ASCII (constants of the code or configuration); field values other than Host/Authorization/Cookie '
                'come from configuration and parsed header lines and are CR/LF-free',
-               'IPv6 zone identifiers in URL hosts are out of scope here: rejected by the C10/C11 repair of url.py']
+               'IPv6 literals with zone identifiers (%zone, %25zone, white space, brackets inside) are generated in start URLs, '
+               'Locations and scheme-relative Locations, directly and through the proxy: the tree must reject them (C10/C11 repair of url.py)']
 UNPROVED = ['every_hop_host_and_credentials for sessions WITH a cookie jar (the urllib round trip of CookieJarWrapper.add_cookie_header '
             'is modelled and co-simulated hop by hop, but the chain induction is proved only without jar; fresh_hop_fields holds for any state either way)',
             'that one value stored under a name is one line on the wire needs the names-are-distinct invariant of the Fields list '
@@ -75,13 +76,22 @@ def check_head(ctx, case, data, info, full, pairs, where):
         return          # a Host field configured by the caller is left alone (not URL data)
     if len(hosts) != 1:
         ctx.fail('host-count', where, case, 'Host fields %r' % hosts)
+    elif any(ch in hosts[0] for ch in ' \t\x0b\x0c'):
+        ctx.fail('request-shape', where, case, 'white space inside the Host value %r (smuggled from the URL)' % hosts[0])
     elif hosts[0] != rc.expected_host(info):
         ctx.fail('host-mismatch', where, case, 'Host %r, URL %r' % (hosts[0], canon))
 
 
 def monitor_class(ctx, case, info, where='URLInfo.parse'):
     comps = [info.hostname, info.path, info.query or '']
-    weak_bad = [c for c in comps + [info.url] if any(ch in '\r\n ' or ord(ch) > 255 for ch in c)]
+    try:
+        whole = info.url
+    except Exception as e:
+        ctx.fail('url-char-class', where, case, 'URLInfo.url raises %s for an accepted URL (hostname %r)' % (type(e).__name__, info.hostname))
+        return
+    weak_bad = [c for c in comps + [whole] if any(ch in '\r\n \t\x0b\x0c' or ord(ch) > 255 for ch in c)]
+    if not weak_bad and any(ch in info.hostname for ch in '[]'):
+        weak_bad = [info.hostname]
     if weak_bad:
         ctx.fail('url-char-class', where, case, 'canonical component with CR/LF/SP/non-latin-1: %r' % weak_bad)
     elif not all(rc.component_class_ok(c) for c in comps + [info.url]):
@@ -180,8 +190,14 @@ def stream_small(ctx, rng, n):
     infos = [(u, i) for u, (k, i) in infos if k == 'url']
     reps = ctx.model.ask(['request hostport ' + rc.url_token(rc.urlc(i)) for _, i in infos])
     for (u, i), rep in zip(infos, reps):
-        real = enc(i.hostname_with_port) + ' ' + enc(i.url)
         ctx.case(('hostport', u), tags=['names:hostport'])
+        monitor_class(ctx, {'stream': 'hostport', 'url': u}, i)
+        try:
+            real = enc(i.hostname_with_port) + ' ' + enc(i.url)
+        except Exception as e:
+            ctx.fail('url-char-class', 'URLInfo.parse', {'stream': 'hostport', 'url': u},
+                     'URL accepted by the parser but its Host value cannot be built: %s (hostname %r)' % (type(e).__name__, i.hostname))
+            continue
         if real != rep:
             ctx.disagree('names', {'stream': 'hostport', 'url': u}, rep, real)
         if i.hostname_with_port != rc.expected_host(i):
@@ -256,7 +272,12 @@ def stream_referer(ctx, cases):
                          'Referer %r (request to %s) carries the user-info of the referring page %r' % (ref, child.hostname_with_port, parent))
 
 # ------------------------------------------------------------------ session
-CHAIN_HOSTS = ['a.example', 'b.example', 'sub.a.example', 'c.test', '10.0.0.5', '[::1]', 'a.example:8080', 'b.example:81']
+CHAIN_HOSTS = ['a.example', 'b.example', 'sub.a.example', 'c.test', '10.0.0.5', '[::1]', 'a.example:8080', 'b.example:81',
+               # hosts that are textual prefixes / near twins of each other: IPv6 literals differing in a decimal last
+               # group (a ':\\d+$' port strip would merge them), host vs host:port, name vs longer name
+               '[::2]', '[2001:db8::2]', '[2001:db8::5]', '[2001:db8::2]:8080', 'a.example.c.test', 'xa.example', '10.0.0.50']
+TWIN_HOSTS = [('[2001:db8::2]', '[2001:db8::5]'), ('[::1]', '[::2]'), ('[2001:db8::5]', '[2001:db8::2]:8080'), ('10.0.0.5', '10.0.0.50'),
+              ('a.example', 'xa.example'), ('a.example', 'a.example.c.test'), ('[2001:db8::2]', '[2001:db8::]')]
 
 
 def gen_location(rng, uid, http_only=False):
@@ -266,6 +287,8 @@ def gen_location(rng, uid, http_only=False):
         r = 0.1
     if r < 0.45:
         host = rng.choice(CHAIN_HOSTS)
+        if rng.random() < 0.08:
+            host = rng.choice(rc.HOSTS_IPV6_ODD)          # zone ids / odd bracket contents: must be rejected
         scheme = 'http' if http_only else rng.choice(['http', 'http', 'https'])
         ui = ''
         if rng.random() < 0.2:
@@ -276,7 +299,7 @@ def gen_location(rng, uid, http_only=False):
     if r < 0.65:
         return rng.choice(['/r%d', 'rel%d', '?q=%d', '../up%d', './%d', '/a b/%d', '/é%d']) .__mod__(uid).encode('latin-1')
     if r < 0.73:
-        return ('//%s/sr%d' % (rng.choice(CHAIN_HOSTS), uid)).encode()
+        return ('//%s/sr%d' % (rng.choice(CHAIN_HOSTS + rc.HOSTS_IPV6_ODD[:6]), uid)).encode('utf-8')
     if r < 0.85:
         return rc.gen_url(rng).encode('utf-8', 'replace')
     if r < 0.9:
@@ -345,6 +368,20 @@ def gen_chain_case(rng, proxy=False):
         replies = [{'status': 401, 'location': None, 'cookies': [b'ckA=v%d' % rng.randrange(1000)], 'mode': 'resp'},
                    {'status': rng.choice([307, 308]), 'location': ('http://%s/t%d' % (other, rng.randrange(100))).encode(),
                     'cookies': [b'ckB=v%d' % rng.randrange(1000)] if rng.random() < 0.5 else [], 'mode': 'resp'}] + replies
+    elif rng.random() < 0.12:
+        # aimed at the cookie jar's notion of "host": twin hosts, every host issuing its own host-only cookie,
+        # bouncing between them so that each is fetched after the other has set a cookie
+        h1, h2 = rng.choice(TWIN_HOSTS)
+        if rng.random() < 0.5:
+            h1, h2 = h2, h1
+        url = 'http://%s/login' % h1
+        use_jar = True
+        max_redirects = 20
+        code = lambda: rng.choice([301, 302, 303, 307, 308])
+        replies = [{'status': code(), 'location': ('http://%s/a' % h2).encode(), 'cookies': [b'ckT1=v%d' % rng.randrange(1000)], 'mode': 'resp'},
+                   {'status': code(), 'location': ('http://%s/b' % h1).encode(), 'cookies': [b'ckT2=v%d' % rng.randrange(1000)], 'mode': 'resp'},
+                   {'status': code(), 'location': ('//%s/c' % h2).encode(), 'cookies': [b'ckT3=v%d; Path=/' % rng.randrange(1000)], 'mode': 'resp'},
+                   {'status': 200, 'location': None, 'cookies': [], 'mode': 'resp'}]
     return {'stream': 'session', 'url': url, 'proxy': proxy, 'replies': replies, 'max_redirects': max_redirects,
             'use_jar': use_jar, 'login': login, 'method': method, 'body': body, 'extra': extra, 'factory': factory}
 
@@ -419,6 +456,8 @@ def check_session_case(ctx, case):
             continue
         hvals = [v for n, v in fields if n.lower() == 'host']
         name = '[%s]' % host if ':' in host else host
+        if hvals and any(ch in hvals[0] for ch in ' \t\x0b\x0c'):
+            ctx.fail('request-shape', where, case, 'hop %d: white space inside the Host value %r (smuggled from the URL)' % (k, hvals[0]))
         if len(hvals) != 1:
             ctx.fail('host-count', where, case, 'hop %d: Host fields %r' % (k, hvals))
         elif case.get('proxy'):
@@ -522,7 +561,7 @@ def zone_id_probe(ctx):
     k, _ = rc.parse_url('http://[fe80::1%25a b]/x')
     k2, _ = rc.parse_url('http://[fe80::1%a b]/x')
     ctx.note('ipv6_zone_id_urls', 'rejected by URLInfo.parse (C10/C11 repair present)' if (k, k2) == ('invalid', 'invalid')
-             else 'ACCEPTED by this tree (space can reach hostname/url): repaired under C10/C11 in wpull/url.py, not generated here')
+             else 'ACCEPTED by this tree: white space can reach hostname/url (the request-shape / url-char-class oracles report it)')
     return (k, k2) == ('invalid', 'invalid')
 
 
@@ -530,7 +569,7 @@ def run(ctx):
     for case in load_corpus(ctx):
         replay(ctx, case['case'] if 'case' in case else case)
     rng = ctx.rng
-    zone_fixed = zone_id_probe(ctx)
+    zone_id_probe(ctx)
     cases = []
     for _ in range(ctx.scale(3000, 90000)):
         hostile = rng.random() < 0.3
@@ -539,8 +578,7 @@ def run(ctx):
         cases.append((rc.gen_url(rng), method, version, gen_pairs(rng, hostile), rng.random() < 0.4))
     fixed = ['http://h/%0d%0a?%0d%0a', 'http://u%0d%0a:p%0d@h/', 'http://h/a b?c d#e', 'http://[::1]:8080/', 'https://h:443/', 'http://h:443/',
              'https://h:80/', 'http://bücher.example/ü?ü', 'http://h/\x7f\x80\x85', 'http://h/?a=b c+d%20e']
-    if zone_fixed:
-        fixed += ['http://[fe80::1%a b]/x', 'http://[fe80::1%25eth0]/']
+    fixed += ['http://%s%s/x?q' % (h, p) for h in rc.HOSTS_IPV6_ODD for p in ('', ':8080')]
     for u in fixed:
         for full in (False, True):
             cases.append((u, 'GET', 'HTTP/1.1', [('User-Agent', 'x')], full))
